@@ -751,7 +751,10 @@ class Model(Object):
                     # The metabolite may be an object that left the model earlier
                     # (e.g. removed as an orphan together with this reaction) and
                     # no longer knows the reaction.
-                    metabolite._reaction.add(reaction)
+                    if reaction not in metabolite._reaction:
+                        metabolite._reaction.add(reaction)
+                        if context:
+                            context(partial(metabolite._reaction.discard, reaction))
                 # A copy of the metabolite exists in the model, the reaction
                 # needs to point to the metabolite in the model.
                 else:
